@@ -352,9 +352,77 @@ Section Natives.
     - cbn [st_heap set_heap]. reflexivity.
     - split; cbn [st_globals st_log set_heap]; [apply (ext_globals _ _ X1) | apply (ext_log _ _ X1)].
   Qed.
+  (* ---- the contracts, read off: what sorted_by_key / min_by_key / max_by_key return ---- *)
+  Theorem native_sorted_contract keyfn cb s p tb :
+    nth_error (st_heap s) p = Some tb -> wf_table tb ->
+    pure_cb P host keyfn cb ->
+    (forall args, key_valid (cb args) = true) ->
+    let h := st_heap s in
+    let keyf := key_by_cb of_key cb in
+    exists s' R,
+      runs P host (TkNative n_sort [VTable p; keyfn]) s (ok [VTable (length h)] empty_env s') /\
+      st_heap s' = h ++ [R] /\
+      Permutation R tb /\
+      Sorted.StronglySorted (fun e1 e2 => sort_lt h (keyf e2) (keyf e1) = false) R /\
+      (forall k, key_valid k = true ->
+         filter (fun e => equiv_key (sort_lt h) (keyf e) k) R =
+         filter (fun e => equiv_key (sort_lt h) (keyf e) k) tb).
+  Proof.
+    intros Hp Hwf Hcb Hval h keyf.
+    destruct (native_sort_correct keyfn cb s p tb Hp Hwf Hcb Hval) as (s' & Hr & Hh & _).
+    assert (Hswo : swo_on (fun v => key_valid v = true) (sort_lt h)).
+    { split.
+      - intros a b Da Db. apply sort_lt_asym; assumption.
+      - intros a b c Da Db Dc. apply sort_lt_cotrans; assumption. }
+    assert (Hd : Forall (fun e => key_valid (keyf e) = true) tb).
+    { apply Forall_forall. intros e _. apply Hval. }
+    exists s', (spec_sorted (sort_lt h) keyf tb). repeat split.
+    - exact Hr.
+    - exact Hh.
+    - apply spec_sorted_perm.
+    - exact (@spec_sorted_ordered _ _ (sort_lt h) keyf _ Hswo tb Hd).
+    - intros k Dk. exact (@spec_sorted_stable _ _ (sort_lt h) keyf _ Hswo k tb Dk Hd).
+  Qed.
+
+  Theorem native_minmax_contract name keyfn cb s p tb :
+    name = n_min \/ name = n_max ->
+    nth_error (st_heap s) p = Some tb -> tb <> [] ->
+    pure_cb P host keyfn cb ->
+    (forall args, num_key (cb args) = true) ->
+    let h := st_heap s in
+    let keyf := key_by_cb of_key cb in
+    let better := cmp_is h (want_of name) in
+    exists s' e l1 l2,
+      runs P host (TkNative name [VTable p; keyfn]) s (ok [VTable (length h)] empty_env s') /\
+      st_heap s' = h ++ [row_value_table e] /\
+      tb = l1 ++ e :: l2 /\
+      Forall (fun e' => better (keyf e) (keyf e') = true) l1 /\
+      Forall (fun e' => better (keyf e') (keyf e) = false) l2.
+  Proof.
+    intros Hname Hp Hne Hcb Hval h keyf better.
+    destruct (native_minmax_correct name keyfn cb s p tb Hname Hp Hcb) as (s' & Hm & _).
+    fold h keyf better in Hm.
+    assert (Hswo : swo_on (fun v => num_key v = true) better).
+    { unfold better, want_of. destruct Hname as [-> | ->].
+      - change (str_eqb n_min n_min) with true. cbv iota. split.
+        + intros a b Da Db. apply cmp_lt_asym; assumption.
+        + intros a b c Da Db Dc. apply cmp_lt_cotrans; assumption.
+      - change (str_eqb n_max n_min) with false. cbv iota. split.
+        + intros a b Da Db. apply cmp_gt_asym; assumption.
+        + intros a b c Da Db Dc. apply cmp_gt_cotrans; assumption. }
+    assert (Hd : Forall (fun e => num_key (keyf e) = true) tb).
+    { apply Forall_forall. intros e _. apply Hval. }
+    destruct (spec_best better keyf tb) as [e|] eqn:Eb.
+    - destruct Hm as [Hr Hh].
+      destruct (@spec_best_first _ _ better keyf _ Hswo tb e Hd Eb) as (l1 & l2 & E & H1 & H2).
+      exists s', e, l1, l2. repeat split; assumption.
+    - apply spec_best_none in Eb. contradiction.
+  Qed.
 End Natives.
 
 Print Assumptions stable_sort_is_sort_keyed.
 Print Assumptions native_to_array_correct.
 Print Assumptions native_sort_correct.
 Print Assumptions native_minmax_correct.
+Print Assumptions native_sorted_contract.
+Print Assumptions native_minmax_contract.
